@@ -107,7 +107,8 @@ func runHLCScript(trNo int, scratch string, acts []HLCAct) ([]HLCLine, error) {
 		os.RemoveAll(filepath.Join(scratch, names["d"]))
 	}()
 	lines := []HLCLine{{K: "line", Kind: "reset", Tr: trNo, Mode: "hlc", Vals: map[string][]int64{"m": {}, "d": {}}}}
-	nwrite := 0
+	nwrite, nmeta := 0, 0
+	lastIssued := map[string]uint64{}
 	write := func(hb *hlcBucket, n int) (op string, key string, casOut uint64, err error) {
 		c := hb.c
 		key = fmt.Sprintf("w%d", n)
@@ -176,6 +177,30 @@ func runHLCScript(trNo int, scratch string, acts []HLCAct) ([]HLCLine, error) {
 			} else {
 				line.Cas = line.ReadCas
 			}
+			if uint64(line.Cas) > lastIssued[a.B] {
+				lastIssued[a.B] = uint64(line.Cas)
+			}
+		case "meta":
+			// a write with a caller-chosen CAS into another collection of the bucket: just below (V=1) or above
+			// the highest CAS the bucket has handed out
+			hb := bs[a.B]
+			if hb == nil || lastIssued[a.B] < 2 {
+				line.Kind = "skip"
+				break
+			}
+			ds, err := hb.b.NamedDataStore(dsName("c1"))
+			if err != nil {
+				line.Res = "error: " + err.Error()
+				break
+			}
+			cas := lastIssued[a.B] - 1
+			if a.V == 0 {
+				cas = lastIssued[a.B] + 2
+			}
+			nmeta++
+			err = ds.(*rosmar.Collection).SetWithMeta(ctx, fmt.Sprintf("meta%d", nmeta), 0, cas, 0, nil, []byte(`{"m":1}`), sgbucket.FeedDataTypeJSON)
+			line.Res = classify(err)
+			line.Cas = int64(cas)
 		case "restart":
 			for b, hb := range bs {
 				if hb == nil {
